@@ -2,6 +2,7 @@
 package props
 
 import (
+	"fmt"
 	"sort"
 
 	"verif/sa/core"
@@ -16,6 +17,66 @@ type Def struct {
 	Assumptions []string // trusted base / assumptions
 	Technique   string   // few words naming the deciding method (MANIFEST technique)
 	DesignRef   string
+}
+
+// Includes: a property whose statement rests on mechanisms decided under other properties also evaluates those rule
+// sets (folded in as rule "<id>.I", construct "<origin rule> <origin construct>").  E.g. output independence of the
+// execution strategy (C01) cannot hold if replaying a cached log differs from executing (C09), if squashing differs from
+// sequential execution (C02), if results depend on which cache files exist (C07) or if index filtering changes results (C15).
+var Includes = map[string][]string{
+	"C01": {"C02", "C07", "C09", "C15"},
+	"C03": {"C11"},
+	"C04": {"C12"},
+	"C07": {"C10"},
+	"C09": {"C08"},
+	"C10": {"C18"},
+	"C12": {"C13"},
+}
+
+// IncludedClosure returns the transitive closure of Includes[id], sorted, without id itself.
+func IncludedClosure(id string) []string {
+	seen := map[string]bool{id: true}
+	var out []string
+	var walk func(x string)
+	walk = func(x string) {
+		for _, y := range Includes[x] {
+			if !seen[y] {
+				seen[y] = true
+				out = append(out, y)
+				walk(y)
+			}
+		}
+	}
+	walk(id)
+	sort.Strings(out)
+	return out
+}
+
+// RunFull runs the property's own rule set and then the rule sets it includes.
+func RunFull(id string, p *core.Prog, r *core.Report) {
+	Registry[id].Run(p, r)
+	for _, inc := range IncludedClosure(id) {
+		d := Registry[inc]
+		if d == nil {
+			continue
+		}
+		sub := core.NewReport(inc)
+		func() {
+			defer func() {
+				if x := recover(); x != nil {
+					sub.Add(&core.Obligation{Rule: inc, Construct: "run", Desc: "included rule set runs", Status: core.Undec, Detail: fmt.Sprint(x)})
+				}
+			}()
+			d.Run(p, sub)
+		}()
+		for _, o := range sub.Obligations {
+			r.Add(&core.Obligation{Rule: id + ".I", Construct: o.Rule + " " + o.Construct, Desc: o.Desc, Status: o.Status, Detail: o.Detail, Sites: o.Sites})
+		}
+		for f := range sub.Funcs {
+			r.Funcs[f] = true
+		}
+		r.CallSites += sub.CallSites
+	}
 }
 
 // NotApplicable gives the reason for every property that is not (yet) claimed.
